@@ -72,7 +72,8 @@ fn schema_event<S: Settings>(settings: &S, math: &CpuMath<TestLogp>) -> J {
     json!({"ev": "schema", "names": settings.stat_names(math), "types": types, "dims": dims,
         "event_dims": evd, "dim_sizes": sizes, "num_tune": settings.hint_num_tune(),
         "num_draws": settings.hint_num_draws(), "sampler": settings.sampler_name(),
-        "adaptation": settings.adaptation_name()})
+        "adaptation": settings.adaptation_name(),
+        "settings": serde_json::to_value(settings).unwrap_or(J::Null)})
 }
 
 /// Run one chain; all events go to the thread-local sink.
